@@ -24,9 +24,12 @@
         protection, which is why the public [image], [preimage] and
         [copy_bdd] run with requests disabled since dd commit 127a6e6
         ([C09_image_guard_needed]; the totality of the guarded entry points:
-        [Properties/C17c.v]); and for
-        [quantify] when the variables are given as LEVELS, which the second
-        attempt reads against the new order ([C09_quantify_levels_refuted]);
+        [Properties/C17c.v]).  It WAS false for [quantify] / [cofactor]
+        when the variables are given as LEVELS, which the second attempt read
+        against the new order; since dd commit a1c66f6 the public methods turn
+        levels into names before they call the decorated workers
+        ([C09_quantify_levels_fixed], [C09_cofactor_levels_fixed], and the
+        general theorems in [Properties/C09d.v]);
       - open: [compose], [rename], [cube] (decorated; they fit [op_spec] but
         their by-name specifications and [Counts] lemmas are not done), and
         the quantifier rows of [apply].
@@ -339,7 +342,7 @@ Example C09_image_guard_needed :
   last_len (world_get (fst (step w 0 (OImage 2 3 true [] true [] false))) 0) = Some 1.
 Proof. exact image_signal_escapes. Qed.
 
-(** ** A positive run, and a refutation for keys given as levels.
+(** ** Positive runs, also for keys given as levels.
     Four variables v0..v3, all held; f = (v0 /\ v2) \/ (v1 /\ v3) is
     reference 10, held; dynamic reordering enabled ([dyn_history]).
     [table 4 s r]: the truth table, by variable name, of a returned
@@ -376,20 +379,46 @@ Example C09_apply_example :
 Proof. exact apply_dynamic_example. Qed.
 
 (** [quantify] (like [cofactor]) accepts LEVELS instead of names
-    ([_map_to_level]); the second attempt reads the same integers against
-    the new order.  [\E level 0. f] is [\E v0. f] without the request and
-    [\E v2. f] with it; by name the result is stable. *)
-Example C09_quantify_levels_refuted :
+    ([_map_to_level]).  Before dd commit a1c66f6 the decorated method read the
+    same integers a second time, against the new order: [\E level 0. f] was
+    [\E v0. f] without the request and [\E v2. f] with it (this file used to
+    contain that refutation).  The public methods now turn levels into names
+    before they call the decorated workers; on the SAME scenario the result is
+    [\E v0. f] whether the request fires or not, as it is by name, although
+    the reordering really happens (v2 sits at level 0 afterwards) and
+    [\E v2. f] is another function.  The general statements:
+    [Properties/C09d.v]. *)
+Example C09_quantify_levels_fixed :
   let w0 := run_ops dyn_history in
   let w1 := fst (step w0 0 (OSetTrig (Some 1))) in
   let '(wA, rA) := step w0 0 (OQuantify 10 false [0] false) in
   let '(wB, rB) := step w1 0 (OQuantify 10 false [0] false) in
   let '(wC, rC) := step w1 0 (OQuantify 10 true [0] false) in
   let '(wD, rD) := step w0 0 (OQuantify 10 true [2] false) in
-  table 4 (world_get wB 0) rB ≠ table 4 (world_get wA 0) rA ∧
-  table 4 (world_get wB 0) rB = table 4 (world_get wD 0) rD ∧
-  table 4 (world_get wC 0) rC = table 4 (world_get wA 0) rA.
-Proof. exact quantify_levels_not_stable. Qed.
+  let s := world_get w0 0 in let sB := world_get wB 0 in
+  vars s !! 0 = Some 0 ∧ vars s !! 2 = Some 2 ∧ vars sB !! 2 = Some 0 ∧
+  bool_decide (is_Some (last_len sB)) = true ∧ rctx sB = false ∧ trig sB = None ∧
+  table 4 (world_get wB 0) rB = table 4 (world_get wA 0) rA ∧
+  table 4 (world_get wC 0) rC = table 4 (world_get wA 0) rA ∧
+  table 4 (world_get wB 0) rB ≠ table 4 (world_get wD 0) rD.
+Proof. exact quantify_levels_stable. Qed.
+
+(** [cofactor]: [f | level 1 = TRUE] is [f | v1 = TRUE] whether the request
+    fires or not, although v0 sits at level 1 afterwards *)
+Example C09_cofactor_levels_fixed :
+  let w0 := run_ops dyn_history in
+  let w1 := fst (step w0 0 (OSetTrig (Some 1))) in
+  let '(wA, rA) := step w0 0 (OCofactor 10 false [(1, true)]) in
+  let '(wB, rB) := step w1 0 (OCofactor 10 false [(1, true)]) in
+  let '(wC, rC) := step w1 0 (OCofactor 10 true [(1, true)]) in
+  let '(wD, rD) := step w0 0 (OCofactor 10 true [(0, true)]) in
+  let s := world_get w0 0 in let sB := world_get wB 0 in
+  lvl2var s !! 1 = Some 1 ∧ lvl2var sB !! 1 = Some 0 ∧
+  bool_decide (is_Some (last_len sB)) = true ∧ rctx sB = false ∧ trig sB = None ∧
+  table 4 (world_get wB 0) rB = table 4 (world_get wA 0) rA ∧
+  table 4 (world_get wC 0) rC = table 4 (world_get wA 0) rA ∧
+  table 4 (world_get wB 0) rB ≠ table 4 (world_get wD 0) rD.
+Proof. exact cofactor_levels_stable. Qed.
 
 (** The hypothesis "operands are held" ([heldn L (absn u)]) is necessary:
     the same history with f = 10 not held.  The aborted first attempt is
